@@ -701,7 +701,10 @@ int ILLsymboltab_uname (
 	{
 		i = 0;
 		sprintf (prefix, "%s", try_prefix[0]);
-		numlen = (log10 ((double) (symtab->tablesize - 1) * 10)) + 1;
+		/* number of digits of the largest suffix; a table with a single entry
+		 * would give log10(0) = -inf and an out-of-bounds write below */
+		numlen = (symtab->tablesize > 1) ?
+			(int) (log10 ((double) (symtab->tablesize - 1) * 10)) + 1 : 2;
 		while (!found)
 		{
 			ILL_FAILfalse (i <= nvars, "something wrong in find_unique_name");
